@@ -4,12 +4,14 @@
 \*   journal  FullBlk = FALSE  FullSlot = TRUE   FullMeta = FALSE   undamaged data, damaged journal
 \*   meta     FullBlk = FALSE  FullSlot = FALSE  FullMeta = TRUE    undamaged data, damaged metadata / size
 \*   all      everything TRUE
+\*   valid    everything FALSE, OnlyUndamaged = TRUE: images the store itself could have left
 \*   pinned   Pin = TRUE, FullBlk = TRUE, Vers = {v}: exhaustive breadth-first enumeration of all
-\*            31^4 = 923 521 data areas under a never-written journal and one valid metadata copy
+\*            33^4 = 1 185 921 data areas under a never-written journal and one valid metadata copy
 CONSTANTS
   DS = 16  DE = 20
   FullBlk = TRUE  FullSlot = TRUE  FullMeta = TRUE
   Vers = {1, 2, 3}
   Sizes = {"ok", "short", "unal"}
   Pin = FALSE
+  OnlyUndamaged = FALSE
 SPECIFICATION Spec
